@@ -33,7 +33,7 @@ import (
 func init() {
 	core.RegisterMeta("C19", core.Meta{
 		Rule: "inputs = DER-looking encodings of INTEGER/ENUMERATED, BOOLEAN, OBJECT IDENTIFIER, BIT STRING, GeneralizedTime and bare tag/length headers, each followed by unrelated bytes; " +
-			"exhaustive: every content of 0..3 bytes (INTEGER, OID, BIT STRING), 0..2 bytes (BOOLEAN), every 3-byte header prefix, every first octet x every 0x82 length from a boundary set, high-tag-number headers from boundary sets, a near-valid GeneralizedTime grammar; " +
+			"exhaustive: every content of 0..3 bytes (INTEGER, OID, BIT STRING), 0..2 bytes (BOOLEAN), every 3-byte header prefix, every first octet x every 0x82 length from a boundary set, high-tag-number headers from boundary sets, long-form lengths of 1..127 octets (18 boundary values zero-padded to every width, tags 0x04/0x30/0xa3, through RawValue, []byte, []RawValue and the tag-taking cryptobyte readers), a near-valid GeneralizedTime grammar; " +
 			"sampled: longer contents and headers. Each input is given to every matching strict decoder of zcrypto encoding/asn1 (int,int32,int64,*big.Int,Enumerated,bool,ObjectIdentifier,BitString,RawValue) and cryptobyte (ReadASN1Integer into 7 types, ReadASN1Int64WithTag, ReadASN1Enum, ReadASN1Boolean, ReadASN1ObjectIdentifier, ReadASN1BitString[AsBytes], ReadASN1GeneralizedTime, ReadAnyASN1[Element]). " +
 			"non-trivial = (decoder, input) pair that was ACCEPTED, so that the re-encode comparison actually ran; pairs from enumerated spaces are distinct by construction, sampled ones are counted by hash (1 in 8 is hashed; thorough 1 in 64)",
 		MinNontrivial:         90000000,
@@ -439,6 +439,50 @@ func cbAnyElement() *tgt {
 	}
 }
 
+// cbTagged: the cryptobyte readers that take a tag and parse a length.
+func cbTagged(which string, tag byte) *tgt {
+	var content []byte
+	var element bool
+	return &tgt{name: fmt.Sprintf("cryptobyte:%s(0x%02x)", which, tag), kind: kindHeader, tag: tag,
+		dec: func(in []byte) (int, bool) {
+			s := zcb.String(in)
+			var out zcb.String
+			ok := false
+			element = false
+			switch which {
+			case "ReadASN1":
+				ok = s.ReadASN1(&out, zcbasn1.Tag(tag))
+			case "ReadASN1Bytes":
+				ok = s.ReadASN1Bytes((*[]byte)(&out), zcbasn1.Tag(tag))
+			case "ReadOptionalASN1":
+				present := false
+				ok = s.ReadOptionalASN1(&out, &present, zcbasn1.Tag(tag)) && present
+			default: // ReadASN1Element
+				ok = s.ReadASN1Element(&out, zcbasn1.Tag(tag))
+				element = true
+			}
+			if !ok {
+				return 0, false
+			}
+			content = out
+			return len(in) - len(s), true
+		},
+		enc: func() ([]byte, error) {
+			if element { // the reader hands out the element itself; what it consumed must be that element
+				return content, nil
+			}
+			var b zcb.Builder
+			b.AddASN1(zcbasn1.Tag(tag), func(c *zcb.Builder) { c.AddBytes(content) })
+			return b.Bytes()
+		},
+		xdec: func(in []byte) bool {
+			s := xcb.String(in)
+			var out xcb.String
+			return s.ReadASN1(&out, xcbasn1.Tag(tag))
+		},
+	}
+}
+
 // ---- engine --------------------------------------------------------------------
 
 var sentinel = []byte{0xa5, 0x30, 0x00}
@@ -459,6 +503,7 @@ func runC19(c *core.Ctx) {
 		{"oids", k.oids},
 		{"bitstrings", k.bitstrings},
 		{"headers", k.headers},
+		{"longlengths", k.longLengths},
 		{"gentime", k.gentime},
 	}
 	for _, sp := range spaces {
@@ -896,6 +941,86 @@ func (k *c19) headers() {
 	k.c.NontrivialEnumerated(nt)
 	k.c.Exhaustive(space, mine)
 	k.flushTargets(space, ts)
+}
+
+// longLengths: long-form lengths with 1..127 length octets, each value zero-padded to every width
+// (and in its minimal width), content supplied when the value is <= 70000. Enumerated completely.
+func (k *c19) longLengths() {
+	space := "header-long-form-length-1..127-octets-zero-padded-to-every-width"
+	type group struct {
+		tag byte
+		ts  []*tgt
+	}
+	groups := []group{
+		{0x04, []*tgt{encRaw(), encT[[]byte, []byte]("[]byte", kindHeader, 0x04), cbAnyElement(),
+			cbTagged("ReadASN1", 0x04), cbTagged("ReadASN1Element", 0x04), cbTagged("ReadASN1Bytes", 0x04), cbTagged("ReadOptionalASN1", 0x04)}},
+		{0x30, []*tgt{encRaw(), encT[[]zasn1.RawValue, []gasn1.RawValue]("[]RawValue", kindHeader, 0x30), cbAnyElement(),
+			cbTagged("ReadASN1", 0x30), cbTagged("ReadASN1Element", 0x30)}},
+		{0xa3, []*tgt{encRaw(), cbAnyElement(), cbTagged("ReadASN1", 0xa3), cbTagged("ReadOptionalASN1", 0xa3)}},
+	}
+	be := func(v uint64) []byte {
+		var out []byte
+		for ; v > 0; v >>= 8 {
+			out = append([]byte{byte(v)}, out...)
+		}
+		if len(out) == 0 {
+			out = []byte{0}
+		}
+		return out
+	}
+	var values [][]byte
+	for _, v := range []uint64{0, 1, 127, 128, 255, 256, 65535, 65536, 70000, 1 << 24, 1<<31 - 1, 1 << 31, 1 << 32, 1<<63 - 1, 1 << 63, 1<<64 - 1} {
+		values = append(values, be(v))
+	}
+	values = append(values, []byte{1, 0, 0, 0, 0, 0, 0, 0, 0}, bytes.Repeat([]byte{0xff}, 16)) // beyond 64 bits
+	buf := make([]byte, 2+127+70000+16)
+	var nt, mine, cnt, evals int64
+	for _, g := range groups {
+		for w := 1; w <= 127; w++ {
+			for _, vb := range values {
+				if len(vb) > w {
+					continue
+				}
+				cnt++
+				if cnt%int64(k.c.NShards) != int64(k.c.Shard) {
+					continue
+				}
+				for i := range buf[:2+127+8] {
+					buf[i] = 0
+				}
+				buf[0], buf[1] = g.tag, 0x80|byte(w)
+				copy(buf[2+w-len(vb):], vb)
+				hl := 2 + w
+				n := 16 // truncated input unless the value can be materialised
+				if len(vb) <= 3 {
+					v := 0
+					for _, x := range vb {
+						v = v<<8 | int(x)
+					}
+					if v <= 70000 {
+						n = v + 3
+						if v >= 3 && v%2 == 1 {
+							buf[hl+1] = 1 // keeps the zero-filled content a sequence of well-formed elements
+						}
+					}
+				}
+				in := buf[:hl+n]
+				for _, t := range g.ts {
+					if k.one(space, t, in, k.xcheck) {
+						nt++
+					}
+					evals++
+				}
+				mine++
+			}
+		}
+	}
+	k.c.Eval(int(evals))
+	k.c.NontrivialEnumerated(nt)
+	k.c.Exhaustive(space, mine)
+	for _, g := range groups {
+		k.flushTargets(space, g.ts)
+	}
 }
 
 func (k *c19) gentime() {
